@@ -22,7 +22,7 @@ META = {
         "technique": "same model and traces as C01; clauses Capacity, Admission, ViewsAgree, CleanupOnlyOutside, QuoteExact",
         "text": "Capacity/admission/eviction/clean-up/quote clauses are step predicates over the index, the distance index, the cached farthest record and the quote figures; TLC checks them on the model "
                 "and on every real step (bursts of unacknowledged writes are ordinary behaviours because notes are delivered only when the behaviour says so).",
-        "note": _common_note + "; the clean-up threshold (1638 records) is reached with filler records only in the padded scenarios", "design_ref": "5 Area RecordStore",
+        "note": _common_note + "; the real clean-up threshold (1638 records) is reached in the padded runs with 1636 / 1635 acknowledged filler records closer than every model key", "design_ref": "5 Area RecordStore",
     },
 }
 META["C02"] = {
@@ -93,6 +93,11 @@ def run(prop, tier, replay=None):
         run_driver("drv_store", ["--out", t2, "--work", os.path.join(w, "runs_big"), "--nk", 6, "--nv", 3, "--max", 3, "--cache", 2,
                                  "--random", 1500 if thorough else 120, "--steps", 80] + (["--crash", 100, "--cuts", 400 if thorough else 10] if prop == "C02" else []), w)
         runs.append((t2, "RecordStoreTrace_big.cfg"))
+    if prop == "C10" and not replay:
+        # clean-up at the REAL threshold: 1636 (1635) filler records + model keys
+        t3 = os.path.join(w, "trace_padded.ndjson")
+        run_driver("drv_store", ["--out", t3, "--work", os.path.join(w, "runs_pad"), "--padded", 400 if thorough else 40], w, timeout=3000)
+        runs.append((t3, "RecordStoreTrace_padded.cfg"))
     kfs = {k["id"]: k for k in kf_for(prop)}
     all_steps = 0
     distinct = set()
